@@ -504,6 +504,10 @@ static string handle(const string &payload) {
       out += "s" + n + "=" + g_store->Dump() + ";y" + n + "=" + file_s(r.at_return.has_conf, r.at_return.conf) +
              ";f" + n + "=" + file_s(fin.has_conf, fin.conf) + ";t" + n + "=" + file_s(fin.has_tmp, fin.tmp) +
              ";xc" + n + "=" + r.calls + ";xi" + n + "=" + r.images + ";a" + n + "=" + (r.atomic ? "1" : "0");
+    } else if (op == "lf") {
+      // the other public loader, on the live object
+      g_store->LoadFromFile(g_conf);
+      out += "s" + n + "=" + g_store->Dump();
     } else if (op == "l") {
       g_store->Load();
       out += "s" + n + "=" + g_store->Dump();
